@@ -264,7 +264,7 @@ theorem C05_derva_slice_s_complete (v : View) (a : Addr) (size align sentinel : 
   rw [hat]
   dsimp only
   have hle : n + 1 ≤ (n + 1) * size := Nat.le_mul_of_pos_right _ hs
-  rw [sliceFLoop_complete (b := v.b) (off := s.off) (blen := s.len) (stop := fun x => x == sentinel)
+  rw [sliceFLoop_finds (b := v.b) (off := s.off) (blen := s.len) (stop := fun x => x == sentinel)
     (s.len + 2) 0 n (Nat.zero_le _) hin (by omega) (by simpa using hsen)
     (fun j _ hj => by simpa using hbefore j hj)]
 
